@@ -8,7 +8,8 @@ from ..hooks import Patches
 PID = "C09"
 LEVEL = "exploration"
 RULE = ("runs of NSGA-II, eps-MOEA, OMOPSO, SMPSO over N in 2..24, G in 1..12, 1..5 parameters, 1..3 objectives, seeds, with and "
-        "without scripted transient failures (never 5 in a row); populations() and the objective call log are compared with the "
+        "without scripted transient failures (never 5 in a row), also with a coarse declared precision (designs on a grid of 3N..6N "
+        "points, where re-drawn designs coincide); populations() and the objective call log are compared with the "
         "counting rules, elitism is checked between consecutive NSGA-II generations with the oracle dominance; pop_acceptance is "
         "driven directly and observed inside eps-MOEA. non-trivial = run with G>=2 (elitism applies) or with injected failures, "
         "acceptance step with a dominated/dominating offspring; distinct by (algorithm, N, G, seed)")
